@@ -13,6 +13,9 @@
 //   - FindTimeRangeBucket is also driven directly on thousands of (start, end, step, ts);
 //   - time bucketing with an alignment origin (`bin span= aligntime=`, every span unit, events on both
 //     sides of the origin; `timechart span=<n><unit>`; direct calls of performBinWithSpanTime): bin.go;
+//   - distinct count over values at the edges of the numeric types (integers above 2^53 that differ by 1, the
+//     ends of int64, uint64 above 2^63, adjacent float64, numeric strings), with and without BY, in timechart,
+//     through every route: dc.go;
 //   - known-defect inputs are generated in separate streams, one per class (known/C04.json).
 package main
 
@@ -83,6 +86,8 @@ func (v Val) json() (string, bool) {
 		return strconv.FormatInt(v.I, 10), true
 	case "flt":
 		return trimZeros(dyadicText(v.Q)), true
+	case "num": // a numeric JSON literal written as it is (dc.go)
+		return v.S, true
 	case "numstr", "str":
 		b, _ := json.Marshal(v.S)
 		return string(b), true
@@ -134,7 +139,8 @@ type Ev struct {
 	D     Val    `json:"d"`
 	G     Val    `json:"g"`
 	K     int64  `json:"kk"`
-	C     string `json:"c"` // low-cardinality string column (dictionary encoded): "u" | "v"
+	C     string `json:"c"`           // low-cardinality string column (dictionary encoded): "u" | "v"
+	X     *Val   `json:"x,omitempty"` // stream dc_edge: the field whose distinct values are counted (dc.go)
 	Batch int    `json:"b"`
 	Seg   int    `json:"seg"`
 }
@@ -148,6 +154,11 @@ func (e Ev) doc() string {
 	}{{"f", e.F}, {"d", e.D}, {"g", e.G}} {
 		if s, ok := p.v.json(); ok {
 			fmt.Fprintf(&sb, ",%q:%s", p.n, s)
+		}
+	}
+	if e.X != nil {
+		if s, ok := e.X.json(); ok {
+			fmt.Fprintf(&sb, ",\"x\":%s", s)
 		}
 	}
 	sb.WriteString("}")
@@ -627,6 +638,25 @@ func genKnown(r *vhlib.Rng, class string) *Dataset {
 		evs[n-1].F = Val{K: "abs"}
 		evs[0].F = Val{K: "abs"}
 		return fin(Query{Kind: "stats", Text: "* | stats " + statsList("f", true, true), Field: "f", VL: true, TS: true})
+	case "groupby_drops_segment_without_measure_column":
+		// the newest segment has no column d at all: before fix babf5fd the pushed-down group-by skipped the whole
+		// segment; now ordinary queries (a regression is reported under the old class name, listed as fixed)
+		for i := h; i < n; i++ {
+			evs[i].D = Val{K: "abs"}
+		}
+		return fin(Query{Kind: "group", Text: "* | stats count, sum(d) by g", Field: "d", By: "g"},
+			Query{Kind: "group", Text: "* | stats count, dc(d) by k", Field: "d", By: "k"})
+	case "groupby_block_without_measure_column_reads_previous_block":
+		// one segment, three blocks; the middle block has no column d (the column exists in the segment): before fix
+		// ccfa9a9 the column reader kept the previous block loaded and handed out its records for the middle block's
+		// record numbers; ordinary queries now (a regression is reported under the old class name, listed as fixed)
+		a := n / 3
+		sizes, modes = []int{a, a, n - 2*a}, []string{"f", "f", vhlib.Pick(r, []string{"f", "r"})}
+		for i := a; i < 2*a; i++ {
+			evs[i].D = Val{K: "abs"}
+		}
+		return fin(Query{Kind: "group", Text: "* | stats count, sum(d), max(d), values(d) by g", Field: "d", VL: true, By: "g"},
+			Query{Kind: "group", Text: "* | stats count, dc(d) by k", Field: "d", By: "k"})
 	case "dc_counts_number_forms_separately":
 		// the integer 5 in an all-integer segment and in a segment whose column also holds a string
 		evs[0].F = Val{K: "int", I: 5}
@@ -641,6 +671,7 @@ var knownClasses = []string{
 	"timechart_end_boundary_stray_bucket", "groupby_count_avg_use_row_count", "groupby_sum_skips_string_typed_numbers",
 	"group_key_split_by_stored_type", "sparse_group_null_bucket_partial", "sum_avg_zero_when_first_merged_record_non_numeric",
 	"int64_sum_wraps", "earliest_latest_from_event_without_field", "dc_counts_number_forms_separately",
+	"groupby_drops_segment_without_measure_column", "groupby_block_without_measure_column_reads_previous_block",
 }
 
 // ---------- running ----------
@@ -777,6 +808,10 @@ func field(e Ev, name string) Val {
 		return e.G
 	case "k":
 		return Val{K: "int", I: e.K}
+	case "x":
+		if e.X != nil {
+			return *e.X
+		}
 	}
 	return Val{K: "abs"}
 }
@@ -851,9 +886,16 @@ type checker struct {
 	ds  *Dataset
 	di  int
 	q   Query
+	// dry: judge only (failures are counted in nfail, nothing is recorded)
+	dry   bool
+	nfail int
 }
 
 func (c *checker) fail(class, detail string) {
+	if c.dry {
+		c.nfail++
+		return
+	}
 	c.mu.Lock()
 	defer c.mu.Unlock()
 	c.sum.Fail(class, fmt.Sprintf("dataset %d (%s f=%s g=%s) query %q: %s", c.di, c.ds.Stream, c.ds.FKind, c.ds.GKind, c.q.Text, detail),
@@ -1172,7 +1214,7 @@ func (c *checker) evalQuery(o WObs) {
 	c.mu.Unlock()
 	if o.Err != "" {
 		cls := "stats_query_fails"
-		if q.Kind == "group" || q.Kind == "tcby" || q.Kind == "tc" || q.Kind == "binal" {
+		if q.Kind == "group" || q.Kind == "tcby" || q.Kind == "tc" || q.Kind == "binal" || q.Kind == "dcby" || q.Kind == "dctc" {
 			cls = "stats_fails_on_sparse_group_field"
 		}
 		c.fail(cls, "query returned an error: "+o.Err)
@@ -1192,6 +1234,8 @@ func (c *checker) evalQuery(o WObs) {
 		c.evalBinAlign(o, evs)
 	case "perc":
 		c.evalPerc(o, evs)
+	case "dc", "dcby", "dctc":
+		c.evalDc(o, evs)
 	}
 }
 
@@ -1268,8 +1312,40 @@ func gotZero(row WRow, name string) bool {
 	return isNum && r.Sign() == 0
 }
 
+// events of the segments that have (a value of) the measured column at all
+func inSegsWithCol(ds *Dataset, evs []Ev, fld string) []Ev {
+	has := map[int]bool{}
+	for _, e := range ds.Evs {
+		if field(e, fld).K != "abs" {
+			has[e.Seg] = true
+		}
+	}
+	var out []Ev
+	for _, e := range evs {
+		if has[e.Seg] {
+			out = append(out, e)
+		}
+	}
+	return out
+}
+
 func (c *checker) evalGroup(o WObs, evs []Ev) {
 	q := c.q
+	if q.Expect == "groupby_drops_segment_without_measure_column" && !c.dry {
+		// signature of the fixed finding babf5fd: the answer is exactly the answer over the events of the segments that have
+		// the measured column; anything else goes through the ordinary oracle below
+		kept := inSegsWithCol(c.ds, evs, q.Field)
+		if len(kept) < len(evs) {
+			d := *c
+			d.dry, d.q.Expect = true, ""
+			d.evalGroup(o, kept)
+			if d.nfail == 0 {
+				c.fail(q.Expect, fmt.Sprintf("%d events match, the %d events of the segment(s) without a column %s are in no group (the result is exact for the other %d events)",
+					len(evs), len(evs)-len(kept), q.Field, len(kept)))
+				return
+			}
+		}
+	}
 	want := map[string][]Ev{}
 	var null []Ev
 	for _, e := range evs {
@@ -1334,6 +1410,13 @@ func (c *checker) evalGroup(o WObs, evs []Ev) {
 		case "groupby_sum_skips_string_typed_numbers":
 			if onlyKeys(bad, "sum(d)", "avg(d)", "count(d)") {
 				c.fail(q.Expect, fmt.Sprintf("group %q: %s", k, bySuffix(bad)))
+				return
+			}
+		case "groupby_block_without_measure_column_reads_previous_block":
+			// signature of the fixed finding ccfa9a9: rows and keys are right, only values of d are wrong (which of them
+			// depended on the order the blocks were read in)
+			if onlyKeys(bad, "sum(d)", "max(d)", "values", "dc") {
+				c.fail(q.Expect, fmt.Sprintf("group %q: events of the block without d carry values of another block: %s", k, bySuffix(bad)))
 				return
 			}
 		}
@@ -1748,6 +1831,9 @@ func coqGroupCase(ds *Dataset, q Query, o WObs) (string, bool) {
 	f := q.Field
 	req := requested(q.Text)
 	full := req["avg("+f+")"] && req["min("+f+")"] && req["max("+f+")"] && req["range("+f+")"] && req["count("+f+")"]
+	if !req["sum("+f+")"] {
+		return "", false // the group model compares rows and sum(f) at least
+	}
 	for _, row := range o.Rows {
 		if len(row.G) != 1 {
 			return "", false
@@ -1914,6 +2000,14 @@ func genJobs(r *vhlib.Rng, thorough bool) []*job {
 	for i := 0; i < nBin; i++ {
 		jobs = append(jobs, &job{ds: genBin(r.Fork(), thorough, i)})
 	}
+	// distinct count over values at the edges of the numeric types (dc.go): every domain in every run
+	nDc := len(dcDomains) + 1
+	if thorough {
+		nDc = 12 * (len(dcDomains) + 1)
+	}
+	for i := 0; i < nDc; i++ {
+		jobs = append(jobs, &job{ds: genDc(r.Fork(), thorough, i)})
+	}
 	return jobs
 }
 
@@ -1960,7 +2054,10 @@ func main() {
 		"streams: main (kept off the known-defect inputs), one stream per known defect class, and bin_origin (bin.go): per span unit ms/cs/ds/s/m/h/d/w a dataset built around an align time " +
 		"(events a whole number of spans, +-1 ms, and random offsets before and after it; align time inside / after / before the data, near 1970, far future) queried with " +
 		"`bin span= aligntime= | stats count, sum(d) by`, the same without aligntime, with a filter, with a cut range, and `timechart span=<n><unit>`; " +
-		"plus direct calls of both copies of performBinWithSpanTime (non-trivial = timestamp before the align time); values are small integers and dyadic rationals so that float sums are exact")
+		"plus direct calls of both copies of performBinWithSpanTime (non-trivial = timestamp before the align time); values are small integers and dyadic rationals so that float sums are exact; " +
+		"stream dc_edge (dc.go): one dataset per value domain (adjacent integers around 2^53 / 2^60 / 2^62, nanosecond epochs, below -2^53, both ends of int64, uint64 above 2^63, adjacent float64 above 2^53, " +
+		"small ints / floats, numeric strings small and of adjacent big integers, plain strings, hundreds of adjacent big integers, mixed magnitudes, integers next to equal floats) queried with " +
+		"dc / estdc / estdc_error without BY (.sst, raw-record, pipeline route), by g, by k, by g,k, after a filter, in timechart with and without BY and with a cut range; plus direct comparisons of float64(int64) with the model's conversion")
 	r := vhlib.NewRng(cfg.Seed)
 	nBucket := 4000
 	if cfg.Thorough() {
@@ -2064,6 +2161,7 @@ func main() {
 				}
 			}
 			flush(false)
+			flushDcCases(sum, cfg.Out, &shard, false)
 		}
 		if i%9 == 0 {
 			sum.Sample(map[string]interface{}{"stream": j.ds.Stream, "fkind": j.ds.FKind, "gkind": j.ds.GKind, "events": len(j.ds.Evs), "batches": j.ds.Modes,
@@ -2071,11 +2169,14 @@ func main() {
 		}
 	}
 	flush(true)
+	flushDcCases(sum, cfg.Out, &shard, true)
 	bucketCases(r.Fork(), sum, cfg.Out, nBucket)
 	binCalls(r.Fork(), sum, cfg.Out, nBucket)
+	f64convCases(r.Fork(), sum, cfg.Out, nBucket/2)
 	sum.Notes = append(sum.Notes,
 		"float64 values are dyadic rationals with 10 fractional bits and small magnitude: sums are exact; avg compared with relative tolerance 1e-12 (oracle) / 2^-40 (Coq)",
-		"dc: exact below 50 distinct values, 2 % above (HLL log2m=16, observed only); skipped when a number occurs in two forms or next to non-numeric strings (count dc_unchecked_mixed_forms)",
+		"dc: main stream exact below 50 distinct values, 2 % above (HLL log2m=16); skipped there when a number occurs in two forms or next to non-numeric strings (count dc_unchecked_mixed_forms); "+
+			"stream dc_edge: the number of mathematically distinct values of the matched events of the row / group / bucket cell, exact up to 100, 2 % above, and the model's count (distinct hash keys) in Coq",
 		"percentiles: rank window +-1 rank +-1 % (t-digest, observed only)",
 		"group / bucket rows are compared as sets; list() as a multiset")
 	sum.Write(cfg.Out)
